@@ -187,3 +187,40 @@ package retry
 //@ spec func tikvRPCKind() string { return BoTiKVRPC.name }
 //@ spec func tiflashRPCKind() string { return BoTiFlashRPC.name }
 //@ spec func regionMissKind() string { return BoRegionMiss.name }
+
+// The readers report the accounting fields themselves (a caller that budgets by GetTotalSleep / ErrorsNum sees what Backoff
+// recorded), and rebinding the context changes nothing of the accounting.
+//@ func (b *Backoffer) GetTotalSleep
+//@   prop C20
+//@   ensures result == b.totalSleep
+//@ func (b *Backoffer) ErrorsNum
+//@   prop C20
+//@   ensures result == b.errorsNum
+//@ func (b *Backoffer) GetBackoffTimes
+//@   prop C20
+//@   ensures result == b.backoffTimes
+//@ func (b *Backoffer) GetBackoffSleepMS
+//@   prop C20
+//@   ensures result == b.backoffSleepMS
+//@ func (b *Backoffer) GetCtx
+//@   prop C20
+//@   ensures result == b.ctx
+//@ func (b *Backoffer) GetVars
+//@   prop C20
+//@   ensures result == b.vars
+//@ func (b *Backoffer) SetCtx
+//@   prop C20
+//@   ensures b.ctx == ctx && b.totalSleep == old(b.totalSleep) && b.excludedSleep == old(b.excludedSleep) && b.maxSleep == old(b.maxSleep) && b.errorsNum == old(b.errorsNum)
+
+// A region error is retried for free only when it is a real epoch-not-match (one that names current regions); every
+// other region error, and the fake epoch-not-match without regions, costs one region-miss back-off - so a loop retrying on
+// region errors is bounded by the budget.
+//@ func IsFakeRegionError
+//@   prop C20
+//@   ensures result == (err != nil && err.EpochNotMatch != nil && len(err.EpochNotMatch.CurrentRegions) == 0)
+//@ func MayBackoffForRegionError
+//@   prop C20
+//@   typeinv validB(bo) && validCfg(BoRegionMiss)
+//@   opaque-callee String
+//@   ensures free: regionErr == nil || (regionErr.EpochNotMatch != nil && len(regionErr.EpochNotMatch.CurrentRegions) > 0) ==> result == nil && (bo != nil ==> bo.totalSleep == old(bo.totalSleep))
+//@   ensures paid: regionErr != nil && !(regionErr.EpochNotMatch != nil && len(regionErr.EpochNotMatch.CurrentRegions) > 0) && result == nil ==> bo.backoffTimes[BoRegionMiss.name] == old(bo.backoffTimes[BoRegionMiss.name]) + 1
